@@ -49,6 +49,8 @@ module Nat :
   val leb : nat -> nat -> bool
 
   val ltb : nat -> nat -> bool
+
+  val max : nat -> nat -> nat
  end
 
 module Pos :
@@ -163,15 +165,21 @@ val nth : nat -> 'a1 list -> 'a1 -> 'a1
 
 val nth_error : 'a1 list -> nat -> 'a1 option
 
+val last : 'a1 list -> 'a1 -> 'a1
+
 val rev : 'a1 list -> 'a1 list
 
 val map : ('a1 -> 'a2) -> 'a1 list -> 'a2 list
 
 val fold_left : ('a1 -> 'a2 -> 'a1) -> 'a2 list -> 'a1 -> 'a1
 
+val fold_right : ('a2 -> 'a1 -> 'a1) -> 'a1 -> 'a2 list -> 'a1
+
 val existsb : ('a1 -> bool) -> 'a1 list -> bool
 
 val forallb : ('a1 -> bool) -> 'a1 list -> bool
+
+val filter : ('a1 -> bool) -> 'a1 list -> 'a1 list
 
 val find : ('a1 -> bool) -> 'a1 list -> 'a1 option
 
@@ -544,6 +552,149 @@ val of_csv : csv -> sx
 val run_blob_to_csv : sx -> sx
 
 val run_re_order : sx -> sx
+
+type str0 = z list
+
+val str_eqb0 : str0 -> str0 -> bool
+
+val is_space : z -> bool
+
+val split_go : str0 -> str0 -> str0 list
+
+val split : str0 -> str0 list
+
+val sLASH : z
+
+val dOT : z
+
+type path = { p_root : nat; p_parts : str0 list }
+
+val pieces_go : str0 -> str0 -> str0 list
+
+val pieces : str0 -> str0 list
+
+val is_nil0 : 'a1 list -> bool
+
+val is_dot : str0 -> bool
+
+val root_of : str0 -> nat
+
+val parse_path : str0 -> path
+
+val root_str : nat -> str0
+
+val join_slash : str0 list -> str0
+
+val path_str : path -> str0
+
+val path_name : path -> str0
+
+val parts_eqb : str0 list -> str0 list -> bool
+
+val path_eqb : path -> path -> bool
+
+val qUOTE2 : z
+
+val qUOTE1 : z
+
+val strip_quotes : str0 -> str0
+
+val word_to_path : str0 -> path
+
+type exposure =
+| Exposed
+| Hidden
+| Loops
+
+val exposed_rev : (path -> bool) -> nat -> str0 list -> exposure
+
+val is_exposed : (path -> bool) -> path -> exposure
+
+type 'a sres =
+| SOk of 'a
+| SErr of z
+
+val e_VALUE : z
+
+val e_RECURSION : z
+
+val e_KEY0 : z
+
+val prefix_b : str0 -> str0 -> bool
+
+val parts_after : str0 list -> str0 list -> str0 list option
+
+val relative_to : path -> path -> path option
+
+val replace_go : str0 -> str0 -> nat -> str0 -> str0
+
+val replace_all : str0 -> str0 -> str0 -> str0
+
+val has_key : str0 -> (str0 * str0) list -> bool
+
+type jv =
+| JStr of str0
+| JList of jv list
+| JDict of (str0 * jv) list
+| JOther of z
+
+val safe_path :
+  (path -> bool) -> (path -> path) -> path -> str0 -> str0 sres option
+
+val collect :
+  (path -> bool) -> (path -> path) -> path -> str0 list -> (str0 * str0) list
+  -> (str0 * str0) list sres
+
+val apply_subs : (str0 * str0) list -> str0 -> str0
+
+val sanitize_str :
+  (path -> bool) -> (path -> path) -> path -> str0 -> str0 sres
+
+val sanitize : (path -> bool) -> (path -> path) -> path -> jv -> jv sres
+
+val k_TMP_DIR : str0
+
+val k_EXT_DIR : str0
+
+val pop_key : str0 -> (str0 * jv) list -> (str0 * jv) list option
+
+val sanitize_lines :
+  (path -> bool) -> (path -> path) -> path -> str0 list -> str0 list sres
+
+type sinks = { s_config : jv; s_log : str0 list; s_log_file : str0 list }
+
+val run_sinks :
+  (path -> bool) -> (path -> path) -> path -> bool -> (str0 * jv) list ->
+  str0 list -> sinks sres
+
+val ex_of : path list -> path -> bool
+
+val resolve_of : (path * path) list -> path -> path
+
+val sx_str0 : sx -> str0 option
+
+val sx_path : sx -> path option
+
+val of_path : path -> sx
+
+val sx_jv : nat -> sx -> jv option
+
+val of_jv : jv -> sx
+
+val sx_depth : sx -> nat
+
+val of_sres : ('a1 -> sx) -> 'a1 sres -> sx
+
+val sx_world :
+  sx -> sx -> sx -> ((path list * (path * path) list) * path) option
+
+val run_sanitize : sx -> sx
+
+val run_run_sinks : sx -> sx
+
+val run_split : sx -> sx
+
+val run_word_to_path : sx -> sx
 
 type node = z
 
